@@ -58,7 +58,8 @@ CFG = dict(
         "before their consumer (checked on the traces by the consumer acceptor)",
     ],
     trusted_base=["hooks in /repo (build tag verif), incl. verifID (per-object serial numbers)", "simulated cluster",
-                  "harness/life (event recorder: renumbering of object ids, dropping events of objects of an earlier scenario)"],
+                  "harness/life (event recorder: renumbering of object ids, dropping events of objects that were not created in the current scenario)",
+                  "harness/cmd/c12 supervisor (scenario families in separate process groups, merge of their outputs)"],
     manifest=dict(
         text="Producer - proof + trace validation: in every accepted event sequence (AsyncClose may be interleaved anywhere) the output channels are closed at most once, only after the shutdown marker passed the dispatcher and the "
              "in-flight counter reached zero, never with a message or marker still in the pipeline; no terminal event is accepted after the close (no send on a closed channel), no new message is accepted after the shutdown marker. "
@@ -70,7 +71,9 @@ CFG = dict(
              "decreasing measure for broker worker, offset manager (Retry.Max+1 flushes), client and broker. Every consumer / group / client scenario replays the hook events of the real goroutines through these acceptors. "
              "Close-point enumeration on the real code: every producer scenario (fault scripts active: mid-request, mid-retry, backing off, cluster partly unreachable) is re-run with AsyncClose after the k-th hook event for k spread over "
              "the whole run; consumer scenarios close partition consumers (AsyncClose and Close, then Close again) and the consumer after the k-th delivered message with fetch faults active; group scenarios cancel or Close during a "
-             "session; client scenarios Close with calls in flight, then again. Oracle: completion within the bound, channels closed, no panic (callers and sarama's own goroutines), every message still exactly one event.",
+             "session; client scenarios Close with calls in flight, then again; offset-manager scenarios close 2-4 partition managers (clean or dirty, early or not) and the manager, twice, while commits fail / the "
+             "connection drops / the coordinator cannot be found. A panic in a goroutine that cannot be recovered kills only its worker process and is reported with the scenario that was running; a scenario whose tear-down is wedged is "
+             "reported by a watchdog. Oracle: completion within the bound, channels closed, no panic (callers and sarama's own goroutines), every message still exactly one event.",
         note="Trusted: Lean kernel, hooks, sim cluster, event recorder. The consumer-side models are specifications validated against the runs, not extracted from the code; time bounds are observed, not proved.",
         technique="Lean 4 proofs (producer accounting model; consumer-side hand-shake acceptors) + trace validation of the real goroutines' hook events + close-at-every-k enumeration on the real code",
     ),
